@@ -36,7 +36,7 @@ import (
 
 type c17Up struct {
 	ID       string
-	Kind     string // http | static | file
+	Kind     string // http | unix (an HTTP upstream behind a unix socket) | static | file
 	Path     string // simple path, or a regular expression when Rewrite != ""
 	Rewrite  string
 	PassHost int // structured sets only: 0 unset (default true), 1 true, 2 false
@@ -77,6 +77,8 @@ func c17Sets() []*c17Set {
 			{ID: "rwu-exact", Kind: "http", Path: "exact$", Rewrite: "final"},
 			{ID: "rwu-plus", Kind: "http", Path: "x\\+y/([^/]+)$", Rewrite: "plus/$1?from=u"},
 		}},
+		// two upstreams behind two different unix sockets (same timeout / TLS settings) next to an HTTP one
+		{Name: "unix-sockets", Ups: []c17Up{{ID: "ux-a", Kind: "unix", Path: "/a/"}, {ID: "ux-ab", Kind: "unix", Path: "/a/b/"}, {ID: "root", Kind: "http", Path: "/"}, {ID: "ux-b", Kind: "unix", Path: "/b/"}}},
 		{Name: "static", Legacy: true, Ups: []c17Up{{ID: "static", Kind: "static", Path: "/", Code: 202}, {ID: "a", Kind: "http", Path: "/a/"}, {ID: "ab", Kind: "http", Path: "/a/b/"}}},
 		{Name: "file-mixed", Ups: []c17Up{
 			{ID: "files", Kind: "file", Path: "/b/"},
@@ -250,9 +252,12 @@ func c17Sha(s string) string {
 }
 
 // response variants of the recording upstreams, selected by the request header X-Want
-var c17Wants = []string{"plain", "created", "nocontent", "redirect-ext", "notfound", "error", "unavailable", "cookies", "unauthorized", "forbidden", "big:262144", "big:1048576"}
+var c17Wants = []string{"plain", "created", "nocontent", "redirect-ext", "notfound", "error", "unavailable", "cookies", "unauthorized", "forbidden", "big:262144", "big:1048576",
+	// an interim response first (103 Early Hints with a Link header), then the final answer of the named variant
+	"hints+created", "hints+notfound"}
 
 func c17RespSpec(want, upName string) (status int, hdr [][2]string, body string) {
+	want = strings.TrimPrefix(want, "hints+")
 	name, arg := want, ""
 	if i := strings.IndexByte(want, ':'); i >= 0 {
 		name, arg = want[:i], want[i+1:]
@@ -295,6 +300,11 @@ func c17Upstream(name string) *world.Upstream {
 	u := world.NewUpstream(name)
 	u.Respond = func(w http.ResponseWriter, r *http.Request) {
 		st, hdr, body := c17RespSpec(r.Header.Get("X-Want"), name)
+		if strings.HasPrefix(r.Header.Get("X-Want"), "hints+") {
+			w.Header().Set("Link", "</style.css>; rel=preload; as=style")
+			w.WriteHeader(http.StatusEarlyHints)
+			w.Header().Del("Link")
+		}
 		for _, h := range hdr {
 			w.Header().Add(h[0], h[1])
 		}
@@ -304,6 +314,26 @@ func c17Upstream(name string) *world.Upstream {
 		}
 	}
 	c17Pool[name] = u
+	return u
+}
+
+// c17UpstreamUnix: the same recording upstream behind a unix socket of its own.
+func c17UpstreamUnix(name string) *world.Upstream {
+	if u := c17Pool["unix:"+name]; u != nil {
+		return u
+	}
+	u := world.NewUpstreamUnix(name, filepath.Join(scratch(), "c17-"+name+".sock"))
+	u.Respond = func(w http.ResponseWriter, r *http.Request) {
+		st, hdr, body := c17RespSpec(r.Header.Get("X-Want"), name)
+		for _, x := range hdr {
+			w.Header().Add(x[0], x[1])
+		}
+		w.WriteHeader(st)
+		if st != 204 {
+			io.WriteString(w, body)
+		}
+	}
+	c17Pool["unix:"+name] = u
 	return u
 }
 
@@ -354,8 +384,11 @@ func c17Build(idp *world.IdP, set *c17Set, raw bool, phv int) (*c17Env, error) {
 	e := &c17Env{Set: set, Raw: raw, PHV: phv, ups: make([]*world.Upstream, len(set.Ups)), passHost: make([]bool, len(set.Ups)),
 		injReq: map[string]bool{}, injResp: map[string]bool{}, fileRoot: c17FileRoot()}
 	for i, u := range set.Ups {
-		if u.Kind == "http" {
+		switch u.Kind {
+		case "http":
 			e.ups[i] = c17Upstream(u.ID)
+		case "unix":
+			e.ups[i] = c17UpstreamUnix(u.ID)
 		}
 	}
 	var flags []string
@@ -381,7 +414,7 @@ func c17Build(idp *world.IdP, set *c17Set, raw bool, phv int) (*c17Env, error) {
 		for i, u := range set.Ups {
 			o := options.Upstream{ID: u.ID, Path: u.Path, RewriteTarget: u.Rewrite}
 			switch u.Kind {
-			case "http":
+			case "http", "unix":
 				o.URI = e.ups[i].URL()
 				ph := u.PassHost != 2
 				if phv == 1 {
@@ -746,7 +779,13 @@ func (e *c17Env) judge(rq *c17Req, o *c17Obs) (v c17Verdict) {
 	if !e.passHost[hit.Idx] {
 		wantHost = strings.TrimPrefix(e.ups[hit.Idx].URL(), "http://")
 	}
-	if h.Host != wantHost {
+	if u.Kind == "unix" && !e.passHost[hit.Idx] {
+		// a unix socket has no host name to substitute: whatever the proxy sends instead of the
+		// client's Host is admissible, as long as it is not the client's
+		if h.Host == c17Host {
+			v.Key, v.Msg = "C17/host-header", fmt.Sprintf("upstream %s (pass-host-header=false) saw the client's Host %q", u.ID, h.Host)
+		}
+	} else if h.Host != wantHost {
 		v.Key, v.Msg = "C17/host-header", fmt.Sprintf("upstream %s (pass-host-header=%v) saw Host %q, expected %q", u.ID, e.passHost[hit.Idx], h.Host, wantHost)
 		return
 	}
@@ -917,8 +956,18 @@ func (e *c17Env) judgeReqHeaders(sent [][2]string, got http.Header) (key, msg st
 	return "", "", ambiguous
 }
 
+// c17Interim counts responses preceded by an interim (1xx) response, and those whose interim
+// response reached the client (relaying it is optional; the final status is what the statement is about).
+var c17Interim [2]int64
+
 func (e *c17Env) judgeResponse(want, upName string, resp *world.Resp) (key, msg string) {
 	st, hdr, body := c17RespSpec(want, upName)
+	if strings.HasPrefix(want, "hints+") {
+		c17Interim[0]++
+		if len(resp.Info) > 0 {
+			c17Interim[1]++
+		}
+	}
 	if resp.Status != st {
 		return "C17/response-status", fmt.Sprintf("client saw status %d, upstream sent %d", resp.Status, st)
 	}
@@ -1032,7 +1081,7 @@ func (e *c17Env) subset(paths []string, k int) []string {
 			continue
 		}
 		for i := range routes {
-			if i >= 0 && e.Set.Ups[i].Kind == "http" {
+			if i >= 0 && (e.Set.Ups[i].Kind == "http" || e.Set.Ups[i].Kind == "unix") {
 				per[i] = append(per[i], p)
 			}
 		}
@@ -1054,6 +1103,10 @@ func (e *c17Env) subset(paths []string, k int) []string {
 func c17Run(c *Ctx) {
 	idp := world.NewIdP()
 	defer c17ClosePool()
+	defer func() {
+		c.Add("responses_preceded_by_interim_response", c17Interim[0])
+		c.Add("interim_responses_relayed_to_client", c17Interim[1])
+	}()
 	sets := c17Sets()
 	depthAll, depthMethods, perUp := 2, 1, 1
 	bodies := c17Bodies
